@@ -236,8 +236,9 @@ func c23OptionalInt(max int) {
 // Verif_C23_OptionalInt: lengths 0..8 (inner content up to 4 octets).
 func Verif_C23_OptionalInt() { c23OptionalInt(8) }
 
-// Verif_C23_OptionalIntQ: quick bound, lengths 0..5.
-func Verif_C23_OptionalIntQ() { c23OptionalInt(5) }
+// Verif_C23_OptionalIntQ: quick bound, lengths 0..6 (6 = explicit tag around a one-octet INTEGER
+// plus one trailing byte, the smallest input that shows a missing "exactly one" check).
+func Verif_C23_OptionalIntQ() { c23OptionalInt(6) }
 
 // Verif_C23_OptionalOctetString: ReadOptionalASN1OctetString, all inputs of length 0..7,
 // symbolic outer tag: absent => (nil, present=false), nothing consumed; present => accepted iff
